@@ -5,7 +5,7 @@ from __future__ import annotations
 import ast
 
 from ..core.cfg import CFG
-from ..core.repo import (AnalysisError, Repo, call_name, calls_in, definitions, dotted, is_const,
+from ..core.repo import (AnalysisError, Repo, call_name, calls_in, definitions, dotted, func_params, is_const,
                          names_in, param_default, unparse, walk_no_nested_defs, parent)
 
 VEC = "quantem.core.datastructures.vector"
@@ -382,6 +382,48 @@ def run(check, repo: Repo) -> None:
                                      f"instead of the running position in the selection: selections that are fancy in a "
                                      f"later dimension receive the wrong arrays")
     check.floor("fancy assignment loops", n_f, 2)
+
+    # ---- R8 selection results hold the source cells themselves --------------------------------------
+    # In the slicing arm of __getitem__ every value stored into the result nest must be a cell reached by walking self._data with
+    # the per-axis index.  Going through get_data() is not equivalent: it returns the bare cell (not a one-element list) when the
+    # selection has exactly one cell, so `cells[k]` then denotes a ROW of that cell.
+    gi = methods["__getitem__"]
+    stores = []
+    for lp in [n for n in walk_no_nested_defs(gi) if isinstance(n, ast.For)]:
+        if not (isinstance(lp.iter, ast.Call) and ((call_name(lp.iter) or "").endswith("ndindex") or
+                                                   (call_name(lp.iter) == "enumerate" and lp.iter.args and isinstance(lp.iter.args[0], ast.Call)
+                                                    and (call_name(lp.iter.args[0]) or "").endswith("ndindex")))):
+            continue
+        for st in lp.body:
+            if isinstance(st, ast.Assign) and isinstance(st.targets[0], ast.Subscript) and isinstance(st.targets[0].value, ast.Name):
+                stores.append((lp, st))
+    check.floor("result-nest stores in Vector.__getitem__", len(stores), 1)
+
+    def cell_provenance(fn, e, seen=()):
+        """'data' when e is self._data or a subscript chain / nest walk rooted there; else a description of the foreign root."""
+        if dotted(e) == "self._data":
+            return "data"
+        if isinstance(e, ast.Subscript):
+            return cell_provenance(fn, e.value, seen)
+        if isinstance(e, ast.Name):
+            if e.id in seen:
+                return "data"  # the walk `ref = ref[i]`: decided by the other definitions
+            dd = definitions(fn, e.id)
+            if not dd:
+                return f"`{e.id}` (no definition in the method)"
+            for d in dd:
+                if not isinstance(d, ast.AST):
+                    return f"`{e.id}` ← {d!r}"
+                r = cell_provenance(fn, d, seen + (e.id,))
+                if r != "data":
+                    return r
+            return "data"
+        return f"`{unparse(e)[:60]}`"
+    for lp, st in stores:
+        prov = cell_provenance(gi, st.value)
+        check.decide(prov == "data", "C11-R8", "Vector.__getitem__[slice/fancy]: the value stored per selected position is the source cell reached by walking self._data", "",
+                     mod.line(st), fail_detail=f"`{unparse(st)[:70]}` stores a value rooted at {prov}, not at self._data: an accessor whose return shape depends on the selection size "
+                                               f"(get_data returns the bare cell for a single selected cell) hands back a row of the cell instead of the cell")
 
 
 MANIFEST = {
